@@ -41,7 +41,7 @@ func c18FlightFn(clk *c18Clock, log *c18Log, nexec *atomic.Int64, inside []atomi
 			panic(c18Panic{"flight callback"})
 		}
 		if op.A == 1 {
-			return id, c18TagErr{id}
+			return id, c18MakeErr(c18FailKind(op.E), id)
 		}
 		return id, nil
 	}
@@ -52,6 +52,15 @@ func c18NotePanic(ev *c18Ev, panicked bool, foreign interface{}) {
 	if foreign != nil {
 		ev.Foreign = fmt.Sprint(foreign)
 	}
+}
+
+// c18FailKind: the shared sentinel carries no execution id, so a failing
+// create / fn never uses it.
+func c18FailKind(k int) int {
+	if k == c18ErrNil || k == c18ErrSentinel {
+		return c18ErrStruct
+	}
+	return k
 }
 
 func c18ValTag(val interface{}) int {
@@ -265,6 +274,9 @@ func c18FlightGen(rt *rapid.T) c18Case {
 	c := c18Case{Gs: c18GenGs(rt, 4, func(rt *rapid.T, burst bool) c18Op {
 		op := c18Op{K: rapid.SampledFrom([]string{"do", "do", "doex"}).Draw(rt, "k"), Key: c18Key(rt), H: c18Hold(rt)}
 		op.A = c18Outcome(rt)
+		if op.A == 1 {
+			op.E = c18ErrKind(rt, false)
+		}
 		return op
 	})}
 	c18DrawInstances(rt, c.Gs)
@@ -406,6 +418,9 @@ func c18LockedGen(rt *rapid.T) c18Case {
 	c := c18Case{Gs: c18GenGs(rt, 4, func(rt *rapid.T, burst bool) c18Op {
 		op := c18Op{K: "do", Key: c18Key(rt), H: c18Hold(rt)}
 		op.A = c18Outcome(rt)
+		if op.A == 1 {
+			op.E = c18ErrKind(rt, false)
+		}
 		return op
 	})}
 	c18DrawInstances(rt, c.Gs)
@@ -424,15 +439,13 @@ func TestVerif_C18_lockedcalls(t *testing.T) {
 type c18Closer struct {
 	id     int
 	key    int
+	ek     int // kind of error value its Close returns (0: nil)
 	closed atomic.Int32
 }
 
 func (c *c18Closer) Close() error {
 	c.closed.Add(1)
-	if c.id%3 == 0 {
-		return c18TagErr{c.id}
-	}
-	return nil
+	return c18MakeErr(c.ek, c.id)
 }
 
 // Gets only; the root calls Close once after every script has ended (the
@@ -443,7 +456,8 @@ func c18ManagerInterp(t *testing.T, c c18Case) kit.Verdict {
 	c18CaseClasses(v, c)
 	var mu sync.Mutex
 	var closers []*c18Closer
-	var closeErr error
+	closeErrs := make([]error, c18Inst)
+	closePanic := make([]string, c18Inst)
 	closedAfterFirst := map[int]int32{}
 	log, res := c18PlayRounds(t, c, true, func(clk *c18Clock, log *c18Log) (func(g, i int, op c18Op), func()) {
 		ms := []*syncx.ResourceManager{syncx.NewResourceManager(), syncx.NewResourceManager()}
@@ -464,9 +478,9 @@ func c18ManagerInterp(t *testing.T, c c18Case) kit.Verdict {
 						panic(c18Panic{"resource creator"})
 					}
 					if op.A == 1 {
-						return nil, c18TagErr{id}
+						return nil, c18MakeErr(c18FailKind(op.E), id)
 					}
-					cl := &c18Closer{id: id, key: op.Key}
+					cl := &c18Closer{id: id, key: op.Key, ek: op.E}
 					mu.Lock()
 					closers = append(closers, cl)
 					mu.Unlock()
@@ -491,16 +505,48 @@ func c18ManagerInterp(t *testing.T, c c18Case) kit.Verdict {
 				log.ev(ev)
 			}, func() {
 				// each manager closes its own resources, all of them, and only them
-				closeErr = ms[0].Close()
-				mu.Lock()
-				for _, cl := range closers {
-					closedAfterFirst[cl.id] = cl.closed.Load()
+				for m := 0; m < c18Inst; m++ {
+					m := m
+					pan, val := c18Try(func() { closeErrs[m] = ms[m].Close() })
+					if pan {
+						closePanic[m] = fmt.Sprint("panic: ", val)
+					}
+					if m == 0 {
+						mu.Lock()
+						for _, cl := range closers {
+							closedAfterFirst[cl.id] = cl.closed.Load()
+						}
+						mu.Unlock()
+					}
 				}
-				mu.Unlock()
-				_ = ms[1].Close()
 			}
 	})
-	_ = closeErr
+	// Close: no panic whatever the closers return, and a non-nil error exactly
+	// when one of the manager's own closers failed
+	if res.OK() {
+		for m := 0; m < c18Inst; m++ {
+			failing, kinds := 0, map[int]int{}
+			for _, cl := range closers {
+				if cl.key/3 == m && cl.ek != c18ErrNil {
+					failing++
+					kinds[cl.ek]++
+				}
+			}
+			for k, n := range kinds {
+				if n >= 2 {
+					v.class(fmt.Sprintf("close: %d closers return error kind %d", 2, k))
+				}
+			}
+			if failing >= 2 {
+				v.class("close-several-failing-closers")
+			}
+			if closePanic[m] != "" {
+				v.failf("resource-manager %d: Close panicked with %d failing closers (%s)", m, failing, closePanic[m])
+			} else if (closeErrs[m] != nil) != (failing > 0) {
+				v.failf("resource-manager %d: Close returned %v although %d of its closers failed", m, closeErrs[m], failing)
+			}
+		}
+	}
 	// at most one successful create per key; its resource is what every Get returns
 	resOfKey := map[int]c18Exec{}
 	for _, e := range log.execs {
@@ -656,9 +702,20 @@ func c18ManagerInterp(t *testing.T, c c18Case) kit.Verdict {
 }
 
 func c18ManagerGen(rt *rapid.T) c18Case {
+	// one kind of error value dominates a case, so that several closers of one
+	// manager often return the same kind (or the very same value)
+	dominant := c18ErrKind(rt, true)
 	c := c18Case{Gs: c18GenGs(rt, 4, func(rt *rapid.T, burst bool) c18Op {
 		op := c18Op{K: "get", Key: c18Key(rt), H: c18Hold(rt)}
 		op.A = rapid.SampledFrom([]int{0, 0, 0, 1, 1, 2}).Draw(rt, "outcome")
+		// E: the error value of a failing create, or (successful create) of the
+		// resource's Close; about half of the closers fail
+		if op.A == 1 || (op.A == 0 && rapid.Bool().Draw(rt, "closerFails")) {
+			op.E = dominant
+			if rapid.IntRange(0, 2).Draw(rt, "otherKind") == 0 {
+				op.E = c18ErrKind(rt, true)
+			}
+		}
 		return op
 	})}
 	c18DrawInstances(rt, c.Gs)
